@@ -3,7 +3,7 @@ import ast
 import re
 
 from ..pymodel import AnalysisError, FuncInfo, parent
-from ..astutil import (expand_names, canon, canon_src, src, is_name, is_attr, is_const, const_num, call_name, walk_no_nested,
+from ..astutil import (positive_form, expand_names, canon, canon_src, src, is_name, is_attr, is_const, const_num, call_name, walk_no_nested,
                        strip_docstring, compare_atoms, enclosing_stmt, calls_in, names_in,
                        assignments_to, norm_compare, orient, kwarg)
 from ..cfg import cfg_of, ENTRY, EXIT, RAISE
@@ -307,6 +307,7 @@ def rules(ctx):
     ctx.rule('R02.17', "a special-case branch that reads the polynomial's terms by position or through the inverted "
                        "value->key table is guarded by the exact number of terms", floor=2)
     meths = rel_methods(P)
+    and_form_premises(ctx, 'R02.17', P.opt_funcs(['_pcbo._special_constraints_eq_zero']) + [meths['eq']])
     arity_guards(ctx, 'R02.17', P.opt_funcs(['_pcbo._special_constraints_eq_zero', '_pcbo._special_constraints_le_zero']) or
                  [meths['eq'], meths['le']])
     if not P.has_func('_pcbo._special_constraints_eq_zero'):
@@ -446,6 +447,26 @@ def merge_discipline(ctx, rid, fns):
                 if not has:
                     bad.append((n, "the merged penalty `%s` does not depend on the weight lam (a nested constraint call without "
                                    "lam=lam uses the default weight 1)" % src(v)[:60]))
+                # ... exactly once: a product of lam with something that was itself built with lam=lam is lam squared
+                for m in ast.walk(v):
+                    if isinstance(m, ast.BinOp) and isinstance(m.op, (ast.Mult, ast.Pow)):
+                        facs = []
+
+                        def flat(e):
+                            if isinstance(e, ast.BinOp) and isinstance(e.op, ast.Mult):
+                                flat(e.left)
+                                flat(e.right)
+                            else:
+                                facs.append(e)
+                        flat(m)
+                        weighted = [f for f in facs if is_name(f, 'lam')] + \
+                                   [f for f in facs if not is_name(f, 'lam') and any(
+                                       isinstance(c, ast.Call) and (any(k.arg == 'lam' and is_name(k.value, 'lam') for k in c.keywords) or
+                                                                    any(is_name(a_, 'lam') for a_ in c.args)) for c in ast.walk(f))]
+                        if len(weighted) >= 2 or (isinstance(m.op, ast.Pow) and is_name(m.left, 'lam')):
+                            bad.append((n, "the merged penalty `%s` carries the weight twice (lam times a penalty built with lam=lam): it "
+                                           "scales with lam**2, below lam for 0 < lam < 1" % src(v)[:60]))
+                            break
         ctx.inst(rid, fn, 'merge discipline of %s' % fn.qual, not bad,
                  "penalties only enter through += / -=" if not bad else
                  "%s (line %s): terms already on the model are overwritten / lost, so the added function is not the penalty"
@@ -583,6 +604,85 @@ def slack_register_size(ctx, rid, fns):
                      "register sized by num_bits(%s)" % wtxt if ok else
                      "the slack register is sized by num_bits(%s) instead of num_bits(%s): slack values needed by feasible "
                      "assignments cannot be represented (or the equality range is wrong)" % (src(nb.args[0]), wtxt))
+
+
+def and_form_premises(ctx, rid, fns):
+    """The shortcut that reads `c*z - c*x*y == 0` as z == AND(x, y): the merge of add_constraint_eq_AND is guarded by no
+    constant term, exactly two terms, key lengths {1, 2} and OPPOSITE coefficients (v0 == -v1) - with equal signs
+    (`z + x*y`) the equality has other solutions and the AND penalty is 0 on violating assignments."""
+    from ..astutil import expand_names
+    found = 0
+    for fn in fns:
+        g = cfg_of(fn.node)
+        for c in calls_in(fn.node, 'add_constraint_eq_AND'):
+            st = enclosing_stmt(c)
+            facts, texts = [], []
+            for t, pol, o in g.edge_dominators(st):
+                t2 = expand_names(fn.node, t)
+                facts += compare_atoms(t2, pol)
+                texts.append(src(positive_form(t2, pol)))
+            if not facts:
+                continue            # the gate method itself, not the shortcut
+            found += 1
+            # the recognition may live in a matcher that returns the labels (or None / False): its non-empty returns carry
+            # the premises
+            for f in list(facts):
+                nm = f[1] if (len(f) == 2 and f[0] == 'truthy') else f[0] if (len(f) == 3 and f[1] == 'is not' and f[2] == 'None') else None
+                if not nm:
+                    continue
+                direct_calls = []
+                if not nm.isidentifier():
+                    try:
+                        e_ = ast.parse(nm, mode='eval').body
+                    except SyntaxError:
+                        continue
+                    if not (isinstance(e_, ast.Call) and isinstance(e_.func, ast.Name)):
+                        continue
+                    direct_calls = [e_]
+                local_per = []
+                for s2, v2 in ([] if direct_calls else assignments_to(fn.node, nm)):
+                    if isinstance(v2, ast.AST) and not (isinstance(v2, ast.Constant) and v2.value in (None, False)) and not isinstance(v2, ast.Call):
+                        fr = []
+                        for t, pol, o in g.edge_dominators(s2):
+                            fr += compare_atoms(expand_names(fn.node, t), pol)
+                        local_per.append(fr)
+                if local_per:
+                    facts += [a_ for a_ in local_per[0] if all(a_ in fr for fr in local_per[1:])]
+                for s2, v2 in ([(None, d_) for d_ in direct_calls] or assignments_to(fn.node, nm)):
+                    if isinstance(v2, ast.Call) and isinstance(v2.func, ast.Name) and ctx.prog.has_func('%s.%s' % (fn.module.name.split('.')[-1], v2.func.id)):
+                        h = ctx.prog.func('%s.%s' % (fn.module.name.split('.')[-1], v2.func.id))
+                        gh = cfg_of(h.node)
+                        rets = [r for r in gh.stmts() if isinstance(r, ast.Return) and r.value is not None and
+                                not (isinstance(r.value, ast.Constant) and r.value.value in (None, False))]
+                        per = []
+                        for r in rets:
+                            fr = []
+                            for t, pol, o in gh.edge_dominators(r):
+                                fr += compare_atoms(expand_names(h.node, t), pol)
+                            per.append(fr)
+                        if per:
+                            common = [a_ for a_ in per[0] if all(a_ in fr for fr in per[1:])]
+                            # rename the helper's parameter to the argument text
+                            if h.params and v2.args:
+                                pa, aa = h.params[0], src(v2.args[0])
+                                common = [tuple(re.sub(r'\b%s\b' % re.escape(pa), aa, x) if isinstance(x, str) else x for x in a_) for a_ in common]
+                            facts += common
+            def two_elems(a, b):
+                ma, mb = re.fullmatch(r'(.+)\[(-?\d+)\]', a), re.fullmatch(r'(.+)\[(-?\d+)\]', b)
+                return bool(ma and mb and ma.group(1) == mb.group(1) and ma.group(2) != mb.group(2))
+            opp = any(len(f) == 3 and f[1] == '==' and ((f[0].startswith('-') and two_elems(f[0][1:], f[2])) or
+                                                           (f[2].startswith('-') and two_elems(f[2][1:], f[0])) or
+                                                           (f[2] == '0' and re.fullmatch(r'(.+\]) \+ (.+\])', f[0]) and
+                                                            two_elems(*re.fullmatch(r'(.+\]) \+ (.+\])', f[0]).groups()))) for f in facts) or \
+                any(f[0] == 'falsy' and re.fullmatch(r'(\S+) \+ (\S+)', f[1]) for f in facts if len(f) == 2)
+            nooff = any(f in (('falsy', 'P.offset'),) or (len(f) == 3 and f[0].endswith('.offset') and f[1] == '==' and f[2] == '0') or
+                        (len(f) == 2 and f[0] == 'falsy' and f[1].endswith('.offset')) for f in facts)
+            ctx.inst(rid, fn, c, opp and nooff,
+                     "AND form recognised only for opposite coefficients and no constant" if opp and nooff else
+                     "the AND shortcut is taken without requiring %s: equalities of another shape (e.g. z + x*y == 0, or with a "
+                     "constant) get the penalty of z == x*y, which is 0 on assignments that violate them"
+                     % ('opposite coefficients (v0 == -v1)' if not opp else 'a zero constant term'))
+    return found
 
 
 def arity_guards(ctx, rid, fns):
